@@ -65,7 +65,7 @@ def make_section(rng, kind, idx, pa, pb):
     elif kind == 'deleted':
         s.hunks = [gen.Hunk(1, 0, [('-', gen.rand_text(rng, 30, tabs_ok=False)) for _ in range(rng.randint(1, 3))])]
     for h in s.hunks:
-        h.lines = [l for l in h.lines if l[0] != '\\']
+        h.lines = [(kk, t if not (kk == '+' and t.startswith('++ ')) else 'pp' + t[2:]) for kk, t in h.lines if kk != '\\']
         h.fragment = rng.choice(gen.FRAGMENTS + ['struct X {', 'a @@ b', '\tindented with tab', 'trailing space  '])
     s.pa, s.pb = pa, pb
     return s
